@@ -501,6 +501,10 @@ class _Tracked:
     self.stale_opportunity = False
 
 
+class _ReferenceRefused(Exception):
+  """A freshly built object could not be given the series asked for."""
+
+
 _REENTRANT = {}
 
 
@@ -573,11 +577,14 @@ def execute(desc):
     ref_sets[key] = mods
     cur_set[0] = mods
     rpar, rdiag = mods
-    with mods.active():
-      f = rdiag.TBRMMDiagnostics(
-          np.array(y), rpar.TBRMMDesignParameters(**pk))
-      if x is not None:
-        f.x = np.array(x)
+    try:
+      with mods.active():
+        f = rdiag.TBRMMDiagnostics(
+            np.array(y), rpar.TBRMMDesignParameters(**pk))
+        if x is not None:
+          f.x = np.array(x)
+    except Exception as e:  # pylint: disable=broad-except
+      raise _ReferenceRefused(e)
     return f
 
   cur_set = [None]
@@ -629,414 +636,444 @@ def execute(desc):
   prev_state = None
 
   def abstract_state(t):
-    obj = t.obj
-    fill = tuple(int(getattr(obj, s, None) is not None) for s in CACHE_SLOTS)
-    verdict = getattr(obj, '_tests_ok', 'n/a')
-    verdict = None if verdict is None else bool(verdict)
+    # coverage only (private slots are never compared): must not raise
+    try:
+      obj = t.obj
+      fill = tuple(int(getattr(obj, s, None) is not None)
+                   for s in CACHE_SLOTS)
+      verdict = getattr(obj, '_tests_ok', 'n/a')
+      verdict = None if verdict is None else bool(verdict)
+    except Exception:  # pylint: disable=broad-except
+      fill, verdict = ('?',), '?'
     return (t.x is not None, fill, verdict)
 
-  for step, op in enumerate(desc['ops']):
-    kind = op['op']
-    stats['ops'] += 1
-    if kind == 'churn':
-      base_series = series[op['s']]
-      for j in range(op['n']):
-        try:
-          tmp = tbrmmdiagnostics.TBRMMDiagnostics(
-              np.array(base_series, dtype=float) * (1.0 + j), new_par())
-          tmp.x = np.array(base_series[::-1], dtype=float) + j
-          tmp.bbtest  # pylint: disable=pointless-statement
-          tmp.required_impact  # pylint: disable=pointless-statement
-        except Exception:  # pylint: disable=broad-except
-          pass
-        tmp = None
-      fault('churn_of_short_lived_objects')
-      events.append([step, kind, op['n']])
-      absig.append((kind,))
-      continue
-    if kind == 'new':
-      yn = np.array(series[op['s']])
-      pk = par2_kwargs if op.get('p') else par_kwargs
-      try:
-        sib = tbrmmdiagnostics.TBRMMDiagnostics(yn, new_par(pk))
-      except Exception:  # pylint: disable=broad-except
-        stats['skipped']['sibling_refused'] = 1
-        events.append([step, kind, op['id'], 'refused'])
+  try:
+    for step, op in enumerate(desc['ops']):
+      kind = op['op']
+      stats['ops'] += 1
+      if kind == 'churn':
+        base_series = series[op['s']]
+        for j in range(op['n']):
+          try:
+            tmp = tbrmmdiagnostics.TBRMMDiagnostics(
+                np.array(base_series, dtype=float) * (1.0 + j), new_par())
+            tmp.x = np.array(base_series[::-1], dtype=float) + j
+            tmp.bbtest  # pylint: disable=pointless-statement
+            tmp.required_impact  # pylint: disable=pointless-statement
+          except Exception:  # pylint: disable=broad-except
+            pass
+          tmp = None
+        fault('churn_of_short_lived_objects')
+        events.append([step, kind, op['n']])
+        absig.append((kind,))
         continue
-      objs[op['id']] = _Tracked(sib, yn.copy(), None, pk)
-      fault('sibling_object_built')
-      if op.get('p'):
-        probe('sibling_with_other_parameters')
-      events.append([step, kind, op['id'], op['s']])
-      absig.append((kind, kinds[op['s']]))
-      continue
-    t = objs.get(op.get('o', 0))
-    if t is None:
-      # its creation was refused by the library (or shrunk away)
-      events.append([step, kind, 'no such object'])
-      continue
-    obj = t.obj
-    ev = None
-    if kind in ('set_x', 'set_y'):
-      vals = series[op['s']]
-      exact = None
-      nested_y = None
-      if (op.get('as') == 'lazy' and kind == 'set_x' and
-          op.get('lazy_set_y') is not None and
-          _setter_is_reentrant(tbrmmdiagnostics, tbrmmdesignparameters)):
-        nested_y = series[op['lazy_set_y']]
-        value = LazySeries(vals, obj, None, nested_set=nested_y)
-      elif op.get('as') == 'lazy':
-        value = LazySeries(vals, obj, op.get('lazy_q', 'tests_ok'))
-        fault('read_nested_in_assignment')
-      elif op.get('as') == 'probe_elems' and kind == 'set_x' and all(
-          isinstance(v, float) and v == v and abs(v) < 1e300 for v in vals):
-        # an object-dtype series of exact numbers; their arithmetic reads the
-        # object once (inside whatever reduction the setter performs)
-        value = [ProbeFraction(v) for v in vals]
-        exact = [fractions.Fraction(v) for v in vals]
-        ProbeFraction.hook = (obj, op.get('lazy_q', 'tests_ok'))
-        fault('read_nested_in_element_arithmetic')
-      else:
-        value = _container(np, vals, op.get('as', 'list'))
-      which = kind[-1]
-      try:
-        if which == 'x':
-          obj.x = value
+      if kind == 'new':
+        yn = np.array(series[op['s']])
+        pk = par2_kwargs if op.get('p') else par_kwargs
+        try:
+          sib = tbrmmdiagnostics.TBRMMDiagnostics(yn, new_par(pk))
+        except Exception:  # pylint: disable=broad-except
+          stats['skipped']['sibling_refused'] = 1
+          events.append([step, kind, op['id'], 'refused'])
+          continue
+        objs[op['id']] = _Tracked(sib, yn.copy(), None, pk)
+        fault('sibling_object_built')
+        if op.get('p'):
+          probe('sibling_with_other_parameters')
+        events.append([step, kind, op['id'], op['s']])
+        absig.append((kind, kinds[op['s']]))
+        continue
+      t = objs.get(op.get('o', 0))
+      if t is None:
+        # its creation was refused by the library (or shrunk away)
+        events.append([step, kind, 'no such object'])
+        continue
+      obj = t.obj
+      ev = None
+      if kind in ('set_x', 'set_y'):
+        vals = series[op['s']]
+        exact = None
+        nested_y = None
+        if (op.get('as') == 'lazy' and kind == 'set_x' and
+            op.get('lazy_set_y') is not None and
+            _setter_is_reentrant(tbrmmdiagnostics, tbrmmdesignparameters)):
+          nested_y = series[op['lazy_set_y']]
+          value = LazySeries(vals, obj, None, nested_set=nested_y)
+        elif op.get('as') == 'lazy':
+          value = LazySeries(vals, obj, op.get('lazy_q', 'tests_ok'))
+          fault('read_nested_in_assignment')
+        elif op.get('as') == 'probe_elems' and kind == 'set_x' and all(
+            isinstance(v, float) and v == v and abs(v) < 1e300 for v in vals):
+          # an object-dtype series of exact numbers; their arithmetic reads the
+          # object once (inside whatever reduction the setter performs)
+          value = [ProbeFraction(v) for v in vals]
+          exact = [fractions.Fraction(v) for v in vals]
+          ProbeFraction.hook = (obj, op.get('lazy_q', 'tests_ok'))
+          fault('read_nested_in_element_arithmetic')
         else:
-          obj.y = value
-        raised = None
-      except Exception as e:  # pylint: disable=broad-except
-        raised = e
-      ProbeFraction.hook = None
-      if nested_y is not None and value.set_done is not None:
-        if value.set_done is True:
-          # Two assignments overlapped.  Which of them prevails is not C08's
-          # business (the nested one may complete first and stand, or be
-          # overwritten by a setter that commits a snapshot taken earlier):
-          # the current series are what the object itself reports.  C08's
-          # business is that these are series a freshly built object can
-          # hold, and that everything reported afterwards matches them.
-          if raised is not None and not isinstance(raised, ValueError):
+          value = _container(np, vals, op.get('as', 'list'))
+        which = kind[-1]
+        try:
+          if which == 'x':
+            obj.x = value
+          else:
+            obj.y = value
+          raised = None
+        except Exception as e:  # pylint: disable=broad-except
+          raised = e
+        ProbeFraction.hook = None
+        if nested_y is not None and value.set_done is not None:
+          if value.set_done is True:
+            # Two assignments overlapped.  Which of them prevails is not C08's
+            # business (the nested one may complete first and stand, or be
+            # overwritten by a setter that commits a snapshot taken earlier):
+            # the current series are what the object itself reports.  C08's
+            # business is that these are series a freshly built object can
+            # hold, and that everything reported afterwards matches them.
+            if raised is not None and not isinstance(raised, ValueError):
+              stats['skipped']['assignment_failed_non_valueerror'] = 1
+              break
+            try:
+              ry, rx = obj.y, obj.x
+              t.y = np.array(ry)
+              t.x = None if rx is None else np.array(rx)
+            except Exception:  # pylint: disable=broad-except
+              stats['skipped']['series_unreadable_after_nested_assignment'] = 1
+              break
+            t.caller_x = t.caller_y = None
+            t.alias_x = t.alias_y = False
+            t.read_since_assign = set()
+            n_assign += 1
+            fault('assignment_nested_in_assignment')
+            try:
+              fresh(t.y, t.x, t.pk)
+              unholdable = None
+            except _ReferenceRefused as e:
+              unholdable = e.args[0]
+            if unholdable is not None:
+              viol = core.violation(
+                  PROPERTY, 'D3', step, kind,
+                  'after an assignment nested in an assignment the object holds '
+                  'series that no freshly built object accepts',
+                  expected='a state some fresh object can hold',
+                  got=[core.canon(unholdable), list(np.shape(t.y)),
+                       None if t.x is None else list(np.shape(t.x))])
+              break
+            events.append([step, kind, op.get('o', 0), op['s'], 'nested',
+                           core.canon(raised), core.canon(t.y),
+                           core.canon(t.x)])
+            absig.append((kind, op.get('o', 0), kinds[op['s']], 'nested'))
+            continue
+          elif not isinstance(value.set_done, ValueError):
             stats['skipped']['assignment_failed_non_valueerror'] = 1
             break
-          try:
-            ry, rx = obj.y, obj.x
-            t.y = np.array(ry)
-            t.x = None if rx is None else np.array(rx)
-          except Exception:  # pylint: disable=broad-except
-            stats['skipped']['series_unreadable_after_nested_assignment'] = 1
+          else:
+            probe('nested_assignment_refused')
+        # the model: what a fresh object with the same prior series does
+        f = fresh(t.y, t.x, t.pk)
+        try:
+          with as_reference():
+            if which == 'x' and exact is not None:
+              f.x = list(exact)
+            elif which == 'x':
+              f.x = ref_container(vals, op.get('as', 'list'))
+            else:
+              f.y = ref_container(vals, op.get('as', 'list'))
+          f_raised = None
+        except Exception as e:  # pylint: disable=broad-except
+          f_raised = e
+        if type(raised).__name__ != type(f_raised).__name__:   # by NAME: the two
+        # objects live in different module sets, so their classes are never identical
+          viol = core.violation(
+              PROPERTY, 'D3', step, kind,
+              'assignment outcome differs from a fresh object with the same '
+              'series', expected=core.canon(f_raised), got=core.canon(raised))
+          break
+        if raised is None:
+          if any(getattr(obj, s, None) is not None for s in CACHE_SLOTS):
+            t.cached_before_assign = True
+          if t.read_since_assign:
+            t.stale_opportunity = True
+            if 'tests_ok' in t.read_since_assign:
+              verdict = getattr(obj, '_tests_ok', None)
+              probe('assign_after_verdict_cached_%s' % (
+                  'none' if verdict is None else bool(verdict)))
+          n_assign += 1
+          if which == 'x':
+            t.x = np.array(vals) if exact is None else np.array(exact,
+                                                                dtype=object)
+            t.caller_x = value if not isinstance(
+                value, (list, tuple, LazySeries)) else None
+            t.alias_x = False
+          else:
+            t.y = np.array(vals)
+            t.x = None
+            t.caller_y = value if not isinstance(
+                value, (list, tuple, LazySeries)) else None
+            t.caller_x = None
+            t.alias_y = False
+            t.alias_x = False
+          t.read_since_assign = set()
+        else:
+          if not isinstance(raised, ValueError):
+            # a non-ValueError failure may leave the object half-assigned; the
+            # property has no opinion (no fresh object can hold such series)
+            stats['skipped']['assignment_failed_non_valueerror'] = 1
             break
+          probe('natural_rejection')
+        ev = [step, kind, op.get('o', 0), op['s'], core.canon(raised)]
+        absig.append((kind, op.get('o', 0), kinds[op['s']]))
+      elif kind == 'iadd':
+        which = op['which']
+        cur = t.x if which == 'x' else t.y
+        if cur is not None:
+          try:
+            held = obj.x if which == 'x' else obj.y
+          except Exception:  # pylint: disable=broad-except
+            held = None
+          if held is not None and (
+              t.alias_x if which == 'x' else t.alias_y) and (
+                  not same_series(held, cur)):
+            # the caller scribbled on the array it had passed in: an object that
+            # aliases it now holds (and adds to) the scribbled series
+            probe('object_aliases_caller_array')
+            cur = np.array(held)
+          elif held is not None and np.asarray(held).dtype != cur.dtype and (
+              np.asarray(held).shape == cur.shape):
+            # an implementation that stores its series in ONE dtype (float64
+            # copies of an integer series, say) adds to the converted values:
+            # convert(series) + d, not convert(series + d) -- they differ in
+            # the last bit for integers beyond 2**53
+            probe('object_stores_converted_series')
+            cur = np.array(held)
+        d = op['d']
+        if cur is not None and cur.dtype.kind in 'iub':
+          d = int(d) if int(d) != 0 else 1     # keep integer series integer
+        def do_iadd(target, d=d, which=which):
+          if which == 'x':
+            target.x += d
+          else:
+            target.y += d
+        try:
+          do_iadd(obj)
+          raised = None
+        except Exception as e:  # pylint: disable=broad-except
+          raised = e
+        # Whether `+=` is ACCEPTED is not C08's business (an implementation may
+        # hand out read-only arrays from a fresh object and writable ones from a
+        # deep copy of it): the model follows what the object did.  C08 only
+        # says that what it reports afterwards is not stale.
+        if raised is None and cur is None:
+          # `None += d` cannot succeed: the object handed out a control series
+          # where a fresh object (none assigned since the last treatment series)
+          # reports None
+          viol = core.violation(
+              PROPERTY, 'D2', step, kind,
+              'augmented assignment to %s accepted although no such series is '
+              'held: the object reported a stale series' % which,
+              expected=None, got='accepted')
+          break
+        if raised is None:
+          try:
+            new = np.array(cur)
+            new += d
+          except Exception:  # pylint: disable=broad-except
+            # the object accepted an addition numpy refuses on the series the
+            # model holds: nothing to compare the rest of the run with
+            stats['skipped']['iadd_model_failed'] = 1
+            break
+          if t.read_since_assign:
+            t.stale_opportunity = True
+          n_assign += 1
+          if which == 'x':
+            t.x = new
+          else:
+            t.y = new
+            t.x = None
           t.caller_x = t.caller_y = None
           t.alias_x = t.alias_y = False
           t.read_since_assign = set()
-          n_assign += 1
-          fault('assignment_nested_in_assignment')
-          try:
-            fresh(t.y, t.x, t.pk)
-            unholdable = None
-          except Exception as e:  # pylint: disable=broad-except
-            unholdable = e
-          if unholdable is not None:
-            viol = core.violation(
-                PROPERTY, 'D3', step, kind,
-                'after an assignment nested in an assignment the object holds '
-                'series that no freshly built object accepts',
-                expected='a state some fresh object can hold',
-                got=[core.canon(unholdable), len(t.y),
-                     None if t.x is None else len(t.x)])
+          fault('augmented_assignment_in_place')
+        else:
+          probe('augmented_assignment_refused')
+          if not isinstance(raised, (TypeError, ValueError)):
+            stats['skipped']['iadd_failed_oddly'] = 1
             break
-          events.append([step, kind, op.get('o', 0), op['s'], 'nested',
-                         core.canon(raised), core.canon(t.y),
-                         core.canon(t.x)])
-          absig.append((kind, op.get('o', 0), kinds[op['s']], 'nested'))
-          continue
-        elif not isinstance(value.set_done, ValueError):
-          stats['skipped']['assignment_failed_non_valueerror'] = 1
-          break
-        else:
-          probe('nested_assignment_refused')
-      # the model: what a fresh object with the same prior series does
-      f = fresh(t.y, t.x, t.pk)
-      try:
-        with as_reference():
-          if which == 'x' and exact is not None:
-            f.x = list(exact)
-          elif which == 'x':
-            f.x = ref_container(vals, op.get('as', 'list'))
-          else:
-            f.y = ref_container(vals, op.get('as', 'list'))
-        f_raised = None
-      except Exception as e:  # pylint: disable=broad-except
-        f_raised = e
-      if type(raised).__name__ != type(f_raised).__name__:   # by NAME: the two
-      # objects live in different module sets, so their classes are never identical
-        viol = core.violation(
-            PROPERTY, 'D3', step, kind,
-            'assignment outcome differs from a fresh object with the same '
-            'series', expected=core.canon(f_raised), got=core.canon(raised))
-        break
-      if raised is None:
-        if any(getattr(obj, s, None) is not None for s in CACHE_SLOTS):
-          t.cached_before_assign = True
-        if t.read_since_assign:
-          t.stale_opportunity = True
-          if 'tests_ok' in t.read_since_assign:
-            verdict = getattr(obj, '_tests_ok', None)
-            probe('assign_after_verdict_cached_%s' % (
-                'none' if verdict is None else bool(verdict)))
-        n_assign += 1
-        if which == 'x':
-          t.x = np.array(vals) if exact is None else np.array(exact,
-                                                              dtype=object)
-          t.caller_x = value if not isinstance(
-              value, (list, tuple, LazySeries)) else None
-          t.alias_x = False
-        else:
-          t.y = np.array(vals)
-          t.x = None
-          t.caller_y = value if not isinstance(
-              value, (list, tuple, LazySeries)) else None
-          t.caller_x = None
-          t.alias_y = False
-          t.alias_x = False
-        t.read_since_assign = set()
-      else:
-        if not isinstance(raised, ValueError):
-          # a non-ValueError failure may leave the object half-assigned; the
-          # property has no opinion (no fresh object can hold such series)
-          stats['skipped']['assignment_failed_non_valueerror'] = 1
-          break
-        probe('natural_rejection')
-      ev = [step, kind, op.get('o', 0), op['s'], core.canon(raised)]
-      absig.append((kind, op.get('o', 0), kinds[op['s']]))
-    elif kind == 'iadd':
-      which = op['which']
-      cur = t.x if which == 'x' else t.y
-      if cur is not None:
-        held = obj.x if which == 'x' else obj.y
-        if held is not None and (
-            t.alias_x if which == 'x' else t.alias_y) and (
-                not same_series(held, cur)):
-          # the caller scribbled on the array it had passed in: an object that
-          # aliases it now holds (and adds to) the scribbled series
-          probe('object_aliases_caller_array')
-          cur = np.array(held)
-        elif held is not None and np.asarray(held).dtype != cur.dtype and (
-            np.asarray(held).shape == cur.shape):
-          # an implementation that stores its series in ONE dtype (float64
-          # copies of an integer series, say) adds to the converted values:
-          # convert(series) + d, not convert(series + d) -- they differ in
-          # the last bit for integers beyond 2**53
-          probe('object_stores_converted_series')
-          cur = np.array(held)
-      d = op['d']
-      if cur is not None and cur.dtype.kind in 'iub':
-        d = int(d) if int(d) != 0 else 1     # keep integer series integer
-      def do_iadd(target, d=d, which=which):
-        if which == 'x':
-          target.x += d
-        else:
-          target.y += d
-      try:
-        do_iadd(obj)
-        raised = None
-      except Exception as e:  # pylint: disable=broad-except
-        raised = e
-      # Whether `+=` is ACCEPTED is not C08's business (an implementation may
-      # hand out read-only arrays from a fresh object and writable ones from a
-      # deep copy of it): the model follows what the object did.  C08 only
-      # says that what it reports afterwards is not stale.
-      if raised is None and cur is None:
-        # `None += d` cannot succeed: the object handed out a control series
-        # where a fresh object (none assigned since the last treatment series)
-        # reports None
-        viol = core.violation(
-            PROPERTY, 'D2', step, kind,
-            'augmented assignment to %s accepted although no such series is '
-            'held: the object reported a stale series' % which,
-            expected=None, got='accepted')
-        break
-      if raised is None:
-        new = np.array(cur)
-        new += d
-        if t.read_since_assign:
-          t.stale_opportunity = True
-        n_assign += 1
-        if which == 'x':
-          t.x = new
-        else:
-          t.y = new
-          t.x = None
-        t.caller_x = t.caller_y = None
-        t.alias_x = t.alias_y = False
-        t.read_since_assign = set()
-        fault('augmented_assignment_in_place')
-      else:
-        probe('augmented_assignment_refused')
-        if not isinstance(raised, (TypeError, ValueError)):
-          stats['skipped']['iadd_failed_oddly'] = 1
-          break
-        # refused: the in-place half may or may not have happened before the
-        # refusal, so "current series" is what the object itself reports
-        if cur is not None:
-          if which == 'x':
-            t.alias_x = True
-          else:
-            t.alias_y = True
-      ev = [step, kind, op.get('o', 0), which, core.canon(raised)]
-      absig.append((kind, op.get('o', 0), which))
-    elif kind == 'clear_x':
-      try:
-        obj.x = None
-      except Exception as e:  # pylint: disable=broad-except
-        viol = core.violation(PROPERTY, 'D3', step, kind,
-                              'clearing the control series raised %s' %
-                              type(e).__name__)
-        break
-      if t.read_since_assign:
-        t.stale_opportunity = True
-      n_assign += 1
-      t.x = None
-      t.caller_x = None
-      t.alias_x = False
-      t.read_since_assign = set()
-      ev = [step, kind, op.get('o', 0)]
-      absig.append((kind, op.get('o', 0)))
-    elif kind in ('reject_x', 'reject_y'):
-      which = kind[-1]
-      n = len(t.y)
-      bad = _bad_value(np, op['how'], n)
-      try:
-        if which == 'x':
-          obj.x = bad
-        else:
-          obj.y = bad
-        raised = None
-      except Exception as e:  # pylint: disable=broad-except
-        raised = e
-      f = fresh(t.y, t.x, t.pk)
-      try:
-        with as_reference():
-          if which == 'x':
-            f.x = _bad_value(np, op['how'], n)
-          else:
-            f.y = _bad_value(np, op['how'], n)
-        f_raised = None
-      except Exception as e:  # pylint: disable=broad-except
-        f_raised = e
-      if type(raised).__name__ != type(f_raised).__name__:   # by NAME: the two
-      # objects live in different module sets, so their classes are never identical
-        viol = core.violation(
-            PROPERTY, 'D3', step, kind,
-            'a refused assignment is refused differently from a fresh object',
-            expected=core.canon(f_raised), got=core.canon(raised))
-        break
-      if not isinstance(raised, ValueError):
-        # accepted (or failed otherwise) on both: input validation is not
-        # C08's business and the series now held are not ours to model.
-        stats['skipped']['rejection_not_a_valueerror'] = 1
-        break
-      fault('rejected_assignment_' + which)
-      ev = [step, kind, op.get('o', 0), op['how'], core.canon(raised)]
-      absig.append((kind, op.get('o', 0), op['how']))
-      t.read_since_assign.add('__rejected__')
-    elif kind == 'caller_mutates':
-      arr = t.caller_x if op['which'] == 'x' else t.caller_y
-      if arr is not None and len(arr):
-        wrote = _scribble(arr, op['pos'], op['v'])
-        if wrote:
-          if op['which'] == 'x':
-            t.alias_x = True
-          else:
-            t.alias_y = True
-          fault('caller_mutates_passed_array')
-      ev = [step, kind, op.get('o', 0), op['which']]
-      absig.append((kind, op.get('o', 0), op['which'], arr is not None))
-    elif kind == 'snapshot':
-      new = None
-      if op.get('how') == 'pickle':
-        import pickle  # pylint: disable=g-import-not-at-top
+          # refused: the in-place half may or may not have happened before the
+          # refusal, so "current series" is what the object itself reports
+          if cur is not None:
+            if which == 'x':
+              t.alias_x = True
+            else:
+              t.alias_y = True
+        ev = [step, kind, op.get('o', 0), which, core.canon(raised)]
+        absig.append((kind, op.get('o', 0), which))
+      elif kind == 'clear_x':
         try:
-          new = pickle.loads(pickle.dumps(obj))
-          probe('snapshot_by_pickle')
-        except Exception:  # pylint: disable=broad-except
-          # C08 does not promise picklability: fall back to a deep copy
-          stats['skipped']['pickle_unsupported'] = 1
-      # (copy.copy is deliberately NOT a snapshot kind: shallow copies share
-      # the series arrays, and on the unchanged class `a = copy.copy(d);
-      # a.y += 1` already changes what d reports -- see DESIGN.md section 5.2,
-      # C08-p.)
-      if new is None:
-        new = copy.deepcopy(obj)
-      nt = _Tracked(new, None if t.y is None else t.y.copy(),
-                    None if t.x is None else t.x.copy(), t.pk)
-      nt.read_since_assign = set(t.read_since_assign)
-      nt.stale_opportunity = t.stale_opportunity
-      nt.cached_before_assign = t.cached_before_assign
-      # the copy owns its arrays: the caller's arrays are not aliased by it
-      objs[op['id']] = nt
-      fault('deep_copy_snapshot')
-      ev = [step, kind, op.get('o', 0), op['id']]
-      absig.append((kind, op.get('o', 0)))
-    elif kind == 'read':
-      q = op['q']
-      args = op.get('args') or []
-      ok, val = _do_read(obj, q, args)
-      got = core.canon(val)
-      # current series: the tracked ones, unless the caller scribbled on the
-      # array it passed in -- then whatever the object itself reports holds.
-      cy, cx = t.y, t.x
-      if t.alias_y or t.alias_x:
-        ry, rx = obj.y, obj.x
-        if t.alias_y and not same_series(ry, cy):
-          probe('object_aliases_caller_array')
-          cy = np.array(ry)
-        if t.alias_x and rx is not None and cx is not None and (
-            not same_series(rx, cx)):
-          probe('object_aliases_caller_array')
-          cx = np.array(rx)
-      f = fresh(cy, cx, t.pk)
-      with as_reference():
-        f_ok, f_val = _do_read(f, q, args)
-      exp = core.canon(f_val)
-      stats['compared'] += 1
-      if t.stale_opportunity:
-        stale_read = True
-      if '__rejected__' in t.read_since_assign:
-        probe('read_after_rejected_assignment')
-      if op.get('o', 0) != 0:
-        probe('read_on_snapshot')
-      if t.cached_before_assign:
-        probe('read_after_assignment_over_filled_cache')
-      if q == 'aatest' and ok and getattr(val, 'test_ok', 0) is None:
-        probe('aa_test_unavailable')
-      if q == 'pretestfit' and ok and val is not None and (
-          isinstance(val.a, float) and math.isnan(val.a)):
-        probe('nan_fit')
-      if q == 'tests_ok' and ok:
-        probe('verdict_%s' % ('none' if val is None else bool(val)))
-      if got != exp:
-        inv = 'D2' if q in ('x', 'y') else 'D1'
-        viol = core.violation(
-            PROPERTY, inv, step, 'read:' + q,
-            'object %d reports %s differently from a freshly built object '
-            'holding the same series (%s)' % (
-                op.get('o', 0), q, core.first_difference(exp, got)),
-            expected=exp, got=got)
-        break
-      t.read_since_assign.add(q)
-      ev = [step, kind, op.get('o', 0), q, core.digest_of(got)]
-      absig.append((kind, op.get('o', 0), q))
-    else:
-      raise RuntimeError('unknown op ' + kind)
-    events.append(ev)
-    st = abstract_state(t)
-    stats['states'].add(core.digest_of(st))
-    stats['transitions'].add(core.digest_of([prev_state, kind, op.get('q'),
-                                             st]))
-    prev_state = st
-    absig.append(('state', st[1]))
+          obj.x = None
+        except Exception as e:  # pylint: disable=broad-except
+          viol = core.violation(PROPERTY, 'D3', step, kind,
+                                'clearing the control series raised %s' %
+                                type(e).__name__)
+          break
+        if t.read_since_assign:
+          t.stale_opportunity = True
+        n_assign += 1
+        t.x = None
+        t.caller_x = None
+        t.alias_x = False
+        t.read_since_assign = set()
+        ev = [step, kind, op.get('o', 0)]
+        absig.append((kind, op.get('o', 0)))
+      elif kind in ('reject_x', 'reject_y'):
+        which = kind[-1]
+        n = len(t.y)
+        bad = _bad_value(np, op['how'], n)
+        try:
+          if which == 'x':
+            obj.x = bad
+          else:
+            obj.y = bad
+          raised = None
+        except Exception as e:  # pylint: disable=broad-except
+          raised = e
+        f = fresh(t.y, t.x, t.pk)
+        try:
+          with as_reference():
+            if which == 'x':
+              f.x = _bad_value(np, op['how'], n)
+            else:
+              f.y = _bad_value(np, op['how'], n)
+          f_raised = None
+        except Exception as e:  # pylint: disable=broad-except
+          f_raised = e
+        if type(raised).__name__ != type(f_raised).__name__:   # by NAME: the two
+        # objects live in different module sets, so their classes are never identical
+          viol = core.violation(
+              PROPERTY, 'D3', step, kind,
+              'a refused assignment is refused differently from a fresh object',
+              expected=core.canon(f_raised), got=core.canon(raised))
+          break
+        if not isinstance(raised, ValueError):
+          # accepted (or failed otherwise) on both: input validation is not
+          # C08's business and the series now held are not ours to model.
+          stats['skipped']['rejection_not_a_valueerror'] = 1
+          break
+        fault('rejected_assignment_' + which)
+        ev = [step, kind, op.get('o', 0), op['how'], core.canon(raised)]
+        absig.append((kind, op.get('o', 0), op['how']))
+        t.read_since_assign.add('__rejected__')
+      elif kind == 'caller_mutates':
+        arr = t.caller_x if op['which'] == 'x' else t.caller_y
+        if arr is not None and len(arr):
+          wrote = _scribble(arr, op['pos'], op['v'])
+          if wrote:
+            if op['which'] == 'x':
+              t.alias_x = True
+            else:
+              t.alias_y = True
+            fault('caller_mutates_passed_array')
+        ev = [step, kind, op.get('o', 0), op['which']]
+        absig.append((kind, op.get('o', 0), op['which'], arr is not None))
+      elif kind == 'snapshot':
+        new = None
+        if op.get('how') == 'pickle':
+          import pickle  # pylint: disable=g-import-not-at-top
+          try:
+            new = pickle.loads(pickle.dumps(obj))
+            probe('snapshot_by_pickle')
+          except Exception:  # pylint: disable=broad-except
+            # C08 does not promise picklability: fall back to a deep copy
+            stats['skipped']['pickle_unsupported'] = 1
+        # (copy.copy is deliberately NOT a snapshot kind: shallow copies share
+        # the series arrays, and on the unchanged class `a = copy.copy(d);
+        # a.y += 1` already changes what d reports -- see DESIGN.md section 5.2,
+        # C08-p.)
+        if new is None:
+          try:
+            new = copy.deepcopy(obj)
+          except Exception as e:  # pylint: disable=broad-except
+            # C08 does not promise copyability either (an object holding a
+            # lock, say): no snapshot, later ops on it find no such object
+            stats['skipped']['snapshot_refused_' + type(e).__name__] = 1
+            events.append([step, kind, op['id'], 'refused'])
+            continue
+        nt = _Tracked(new, None if t.y is None else t.y.copy(),
+                      None if t.x is None else t.x.copy(), t.pk)
+        nt.read_since_assign = set(t.read_since_assign)
+        nt.stale_opportunity = t.stale_opportunity
+        nt.cached_before_assign = t.cached_before_assign
+        # the copy owns its arrays: the caller's arrays are not aliased by it
+        objs[op['id']] = nt
+        fault('deep_copy_snapshot')
+        ev = [step, kind, op.get('o', 0), op['id']]
+        absig.append((kind, op.get('o', 0)))
+      elif kind == 'read':
+        q = op['q']
+        args = op.get('args') or []
+        ok, val = _do_read(obj, q, args)
+        got = core.canon(val)
+        # current series: the tracked ones, unless the caller scribbled on the
+        # array it passed in -- then whatever the object itself reports holds.
+        cy, cx = t.y, t.x
+        if t.alias_y or t.alias_x:
+          try:
+            ry, rx = obj.y, obj.x
+          except Exception:  # pylint: disable=broad-except
+            ry, rx = cy, cx    # a getter that raises reports nothing
+          if t.alias_y and not same_series(ry, cy):
+            probe('object_aliases_caller_array')
+            cy = np.array(ry)
+          if t.alias_x and rx is not None and cx is not None and (
+              not same_series(rx, cx)):
+            probe('object_aliases_caller_array')
+            cx = np.array(rx)
+        f = fresh(cy, cx, t.pk)
+        with as_reference():
+          f_ok, f_val = _do_read(f, q, args)
+        exp = core.canon(f_val)
+        stats['compared'] += 1
+        if t.stale_opportunity:
+          stale_read = True
+        if '__rejected__' in t.read_since_assign:
+          probe('read_after_rejected_assignment')
+        if op.get('o', 0) != 0:
+          probe('read_on_snapshot')
+        if t.cached_before_assign:
+          probe('read_after_assignment_over_filled_cache')
+        if q == 'aatest' and ok and getattr(val, 'test_ok', 0) is None:
+          probe('aa_test_unavailable')
+        fit_a = getattr(val, 'a', None) if q == 'pretestfit' and ok else None
+        if isinstance(fit_a, float) and math.isnan(fit_a):
+          probe('nan_fit')
+        if q == 'tests_ok' and ok and (val is None or np.ndim(val) == 0):
+          probe('verdict_%s' % ('none' if val is None else bool(val)))
+        if got != exp:
+          inv = 'D2' if q in ('x', 'y') else 'D1'
+          viol = core.violation(
+              PROPERTY, inv, step, 'read:' + q,
+              'object %d reports %s differently from a freshly built object '
+              'holding the same series (%s)' % (
+                  op.get('o', 0), q, core.first_difference(exp, got)),
+              expected=exp, got=got)
+          break
+        t.read_since_assign.add(q)
+        ev = [step, kind, op.get('o', 0), q, core.digest_of(got)]
+        absig.append((kind, op.get('o', 0), q))
+      else:
+        raise RuntimeError('unknown op ' + kind)
+      events.append(ev)
+      st = abstract_state(t)
+      stats['states'].add(core.digest_of(st))
+      stats['transitions'].add(core.digest_of([prev_state, kind, op.get('q'),
+                                               st]))
+      prev_state = st
+      absig.append(('state', st[1]))
+  except _ReferenceRefused as e:
+    # no freshly built object accepts the series (or parameters) the model
+    # asked for: a constructor stricter than the setters, say.  What is
+    # ACCEPTED is not C08's business; the rest of the run is not explored.
+    stats['skipped']['reference_refused_' + type(e.args[0]).__name__] = 1
 
   nontrivial = n_assign >= 2 and stale_read
   stats['states'] = sorted(stats['states'])
